@@ -291,6 +291,19 @@ def run(tier: str, seed: int) -> Dict[str, Any]:
                     viol.append({"signature": f"C12/{cl}/range:{kind}:{idv}:expected:{exp}:got:{got}" + ("" if place == "root" else ":" + place),
                                  "replay": {"kind": "range", "row": row, "got": got, "place": place, "yaml": defs.yaml_text(f)}})
                 shutil.rmtree(root, ignore_errors=True)
+            # the message-id limit does not depend on the core definitions being loaded
+            if kind in ("msg", "sig", "res") and row["out"] != "MessageIDError":       # (clashes with core ids need the core ids)
+                root = os.path.join(d, f"rg{nr}")
+                defs.write_prog({"r.yaml": f}, root)
+                p, err = defs.parse(os.path.join(root, "r.yaml"), import_coredefs=False)
+                nr += 1
+                got = "ok" if err is None else type(err).__name__
+                exp = row["out"]
+                if got != exp and not (kind == "res" and exp == "MessageIDError"):
+                    cl = "ConflictMissed" if got == "ok" else ("FalseConflict" if exp == "ok" else "WrongErrorClass")
+                    viol.append({"signature": f"C12/{cl}/range:{kind}:{idv}:expected:{exp}:got:{got}:no-core-defs",
+                                 "replay": {"kind": "range", "row": row, "got": got, "place": "no-core-defs", "yaml": defs.yaml_text(f)}})
+                shutil.rmtree(root, ignore_errors=True)
     finally:
         shutil.rmtree(d, ignore_errors=True)
     cov = {"states": mc.get("distinct", 0), "transitions": mc.get("states", 0), "traces_validated_against_impl": n + nr,
